@@ -299,6 +299,12 @@ func (env *specEnv) eval(e SExpr) (Val, types.Type) {
 			return IntLit(0), types.Typ[types.UntypedNil]
 		}
 		if x.Name == "PINF" || x.Name == "NINF" {
+			if vc.Mode == "opaque" {
+				if x.Name == "PINF" {
+					return vc.f64Const(0x7ff0000000000000), tFloat
+				}
+				return vc.f64Const(0xfff0000000000000), tFloat
+			}
 			return vc.declConst(x.Name, SReal), tFloat
 		}
 		v, t, ok := env.lookup(x.Name)
@@ -626,6 +632,9 @@ func (env *specEnv) evalIndex(x SIndex) (Val, types.Type) {
 	}
 	if isSeq(t) {
 		return Select(vc.term(sv), i), t.(*types.Array).Elem()
+	}
+	if ha, ok := t.(*types.Array); ok && ha.Len() == -2 {
+		return Select(vc.term(sv), i), types.NewArray(ha.Elem(), -1)
 	}
 	switch u := t.Underlying().(type) {
 	case *types.Slice:
